@@ -13,8 +13,9 @@
 #include <sys/types.h>
 #include <sys/wait.h>
 #include <sys/stat.h>
-#include <sanitizer/allocator_interface.h>
-#include <sanitizer/lsan_interface.h>
+/* exported by libasan (gcc 12 ships no allocator_interface.h) */
+extern size_t __sanitizer_get_current_allocated_bytes(void);
+extern int __lsan_do_recoverable_leak_check(void);
 #include "hdf5.h"
 
 static int fd_count(void)
